@@ -167,10 +167,90 @@ def run(ctx):
                          tags_of=lambda g, e, v: {'out': e['out'], 'hi': g.name.startswith('edge') and 'hi' in g.name})
     ctx.extra['rule'] = ('banking: every MC_Regs behaviour of depth 2 (BFS) + simulated depth-8 behaviours replayed on '
                          'the real Registers; range: every event of wide sweeps (code at 0x0.. and at 0xFFFFFF00.., '
-                         'registers biased to 0/2^32 edges) must leave all 34 registers, CPSR, SPSRs, ELR in 0..2^32-1')
+                         'registers biased to 0/2^32 edges) must leave all 34 registers, CPSR, SPSRs, ELR in 0..2^32-1; bank-crossing '
+                         'instructions (RFE/SRS with write-back, LDM/STM user registers, LDM exception return, CPS/MSR mode '
+                         'changes, SUBS PC,LR) from every mode with distinct values in all banks, all 34 registers compared exactly')
     for g, e, v in res[:2]:
         ctx.sample({'group': g.name, 'word': g.meta.get(e['id']), 'out': e['out'], 'verdict': v})
     ctx.distinct = {(g.name, e['id']) for g, e, v in res}
+    # banking at instruction level: instructions that cross banks / change mode, judged exactly on all 34 registers
+    btasks = [(bank_instr_task, dict(name='bank-%d' % i, seed=ctx.seed + 700 + i, n=250 if q else 6000,
+                                     ext=[(False, False), (True, False), (True, True)][i % 3])) for i in range(12)]
+    bgroups = C.parallel(_dispatch, btasks)
+    bres = C.judge_groups(ctx, bgroups, bank_clause_filter, rnd=rnd,
+                          tags_of=lambda g, e, v: dict(g.meta.get(e['id'], {}), enc=v['path'].split(':')[-1]))
+    nexact = sum(1 for g, e, v in bres if v['path'].startswith('exact') and not v['path'].startswith('exact:condfail'))
+    ctx.extra['bank_instruction_events'] = len(bres)
+    ctx.extra['bank_instruction_events_exact'] = nexact
+    if nexact < len(bres) // 4:
+        raise tlc.MachineryError('bank-crossing instruction task: only %d of %d events judged exactly' % (nexact, len(bres)))
+    ctx.distinct |= {(g.name, e['id']) for g, e, v in bres}
+
+
+BANK_PATS_ARM = [('rfe', '1111100pu0w1nnnn0000101000000000'), ('srs', '1111100pu1w0110100000101000mmmmm'),
+                 ('ldm_excret', 'cccc100pu1w1nnnn1rrrrrrrrrrrrrrr'), ('ldm_user', 'cccc100pu101nnnn0rrrrrrrrrrrrrrr'),
+                 ('stm_user', 'cccc100pu100nnnnrrrrrrrrrrrrrrrr'), ('cps', '111100010000' + '0010' + '0000000' + '000' + '0' + 'mmmmm'),
+                 ('msr_c', 'cccc00010010' + '0001' + '1111' + '00000000' + 'nnnn'), ('movs_pc_lr', 'cccc0001101100001111000000001110'),
+                 ('subs_pc_lr', 'cccc00100101111011110000000iii00')]
+BANK_PATS_T32 = [('rfe_db', '1110100000w1nnnn1100000000000000'), ('rfe_ia', '1110100110w1nnnn1100000000000000'),
+                 ('srs_db', '1110100000w0110111000000000mmmmm'), ('srs_ia', '1110100110w0110111000000000mmmmm'),
+                 ('cps', '1111001110101111' + '10000' + '00' + '1' + '000' + 'mmmmm'), ('subs_pc_lr', '11110011110111101000111100000i00')]
+
+
+def bank_instr_task(task):
+    """instructions that read or write registers of ANOTHER bank, or change the mode and then touch registers: RFE / SRS
+    with write-back on every base register, LDM/STM (user registers), LDM (exception return), CPS / MSR mode changes,
+    SUBS PC,LR.  Every physical register holds its own value; the CPSR image loaded from memory / held in the SPSR
+    names a legal mode, so the specification pins the step down exactly and TLC compares all 34 registers."""
+    from .c12 import MODES_BY_EXT
+    from .c11 import EXT_CFG
+    from .. import isa_gen as G
+    rnd = random.Random(task['seed'])
+    ext = task['ext']
+    g = S.mk_group(dict(task, cfg=EXT_CFG[ext]))
+    modes = MODES_BY_EXT[ext]
+    regs = [0, 3, 7, 8, 10, 12, 13, 13, 13, 14, 14]
+    for k in range(task['n']):
+        thumb = rnd.random() < 0.35
+        st, pc = S.prep(g, rnd, dict(task, modes='all'), thumb, 0, k)
+        mode = rnd.choice(modes)
+        ns = 1 if mode == 26 else (rnd.getrandbits(1) if ext[0] and mode != 22 else 0)
+        st['sys']['SCR'] = C.limbs(ns | 0x30 if ext[0] else 0)
+        st['cpsr'] = C.limbs((C.unlimbs(st['cpsr']) & ~0x1F & ~0x0600FC00) | mode)       # IT = 0
+        newmode = rnd.choice([m for m in modes if m not in (22, 26)] + [mode])
+        newpsr = (rnd.getrandbits(4) << 28) | (rnd.getrandbits(3) << 6) | newmode
+        newthumb = rnd.getrandbits(1)
+        newpsr |= newthumb << 5
+        for m in st['spsr']:
+            st['spsr'][m] = C.limbs(newpsr)
+        # every register its own small word-aligned pointer into the RAM (distinct so that a wrong bank is visible)
+        names = sorted(st['R'])
+        slots = rnd.sample(range(6, 58), len(names))
+        for r, sl in zip(names, slots):
+            if r != 'PC':
+                st['R'][r] = C.limbs(sl * 4)
+        name, pat = rnd.choice(BANK_PATS_T32 if thumb else BANK_PATS_ARM)
+        fixed = {'c': 14, 'n': rnd.choice(regs), 'm': newmode}
+        if name.startswith('ldm') or name.startswith('stm'):
+            fixed['r'] = rnd.getrandbits(15) | (0x6000 if rnd.random() < 0.6 else 0)
+        if name == 'msr_c':
+            fixed['n'] = rnd.choice([0, 3, 7])
+            st['R']['R%dusr' % fixed['n']] = C.limbs((rnd.getrandbits(2) << 6) | newmode)
+        w = G.fill(pat, rnd, fixed=fixed, regfields='')
+        # memory: PC-like words at even word slots, CPSR images at odd ones - whichever pair RFE / LDM^ picks up is legal
+        mem = st['mem']['base'][0]
+        for a in range(0, len(mem) - 3, 4):
+            v = newpsr if (a // 4) % 2 == rnd.getrandbits(1) else (rnd.randrange(4, 60) * 4)
+            mem[a:a + 4] = [(v >> (8 * i)) & 0xFF for i in range(4)]
+        C.put_instr(st, pc, w, thumb)
+        g.add(st, {'n': 'Step'}, meta={'gen': name, 'word': w, 'thumb': thumb, 'mode': mode, 'newmode': newmode})
+    return [g]
+
+
+def bank_clause_filter(c, v, e):
+    if c == 'hosterror':
+        return True
+    return v['path'].startswith('exact') and (c.startswith(('R.', 'spsr.', 'cpsr.M')) or c in ('elr', 'range'))
 
 
 def sweep_edges(task):
